@@ -3,10 +3,11 @@
    marker class).  The lark grammar is not modelled (the model receives the engine's parse tree).
    Proved: what each kind of leaf evaluates to, in terms of the specifier semantics validated against packaging
    (Spec/Specifier.v), string equality / token lists, and normalised-extra membership; and-or structure.
-   The link from leaf text to leaf constraint (SingleMarker.__init__) is tied by correspondence only. *)
+   The link from leaf text to leaf constraint (SingleMarker.__init__) is proved for '==' / '!=' leaves of string variables and of
+   'extra' with plain values (C06_string_leaf_from_text, C06_extra_leaf_from_text); for the other leaves it is tied by correspondence. *)
 From Coq Require Import List Bool NArith String.
 From PC Require Import Base.Result Model.Pep440 Spec.Pep440Spec Spec.Specifier Model.VConstraint Model.Generic Model.Marker
-     Proofs.SpecifierAgree Proofs.MarkerProofs.
+     Proofs.SpecifierAgree Proofs.MarkerProofs Proofs.LeafRebuild.
 Import ListNotations.
 Open Scope string_scope.
 
@@ -76,3 +77,26 @@ Example C06_example :
   leaf_holds "sys_platform" """nux"" in" true E = true /\
   leaf_holds "python_version" "<3.9" false E = false.
 Proof. vm_compute. repeat split. Qed.
+
+(* from the text of a leaf to its truth value: a leaf 'name == "v"' / 'name != "v"' on a string variable (not a version variable,
+   not 'extra'), v a plain value (letters, digits, _ . -), holds exactly when the environment value is (is not) literally v *)
+Theorem C06_string_leaf_from_text : forall E n o v value,
+  is_version_like n = false -> String.eqb n "extra" = false -> alias n = n -> eqne_op o = true -> plain_value v = true ->
+  lookup n (e_vars E) = Some value ->
+  exists l, mk_leaf n (op_text o ++ string_of_list_ascii v) false = Ok l /\
+            validate (MSingle l) E = Ok (match o with GNe => negb (String.eqb value (string_of_list_ascii v)) | _ => String.eqb value (string_of_list_ascii v) end).
+Proof.
+  intros E n o v value Hn He Ha Ho Hv Hl. eexists. split; [exact (mk_leaf_eqne n o v Hn He Ho Hv)|].
+  cbn [validate l_name l_con]. rewrite Ha. rewrite (leaf_string E n _ value He Hl). cbn [sat gs_sat]. unfold atom_sat. cbn [aop av].
+  destruct o; try discriminate; reflexivity.
+Qed.
+Print Assumptions C06_string_leaf_from_text.
+Theorem C06_extra_leaf_from_text : forall E o v act, eqne_op o = true -> plain_value v = true -> e_extras E = Some act ->
+  exists l, mk_leaf "extra" (op_text o ++ string_of_list_ascii v) false = Ok l /\
+            validate (MSingle l) E = Ok (match o with GNe => negb (mem_str (canon_name (string_of_list_ascii v)) (map canon_name act))
+                                                   | _ => mem_str (canon_name (string_of_list_ascii v)) (map canon_name act) end).
+Proof.
+  intros E o v act Ho Hv He. eexists. split; [exact (mk_leaf_eqne_any "extra" o v eq_refl Ho Hv)|].
+  cbn [validate l_name l_con alias String.eqb Ascii.eqb]. rewrite (leaf_extra E _ o act He). destruct o; try discriminate; reflexivity.
+Qed.
+Print Assumptions C06_extra_leaf_from_text.
